@@ -27,6 +27,14 @@ na = []
 for p in props:
     if p not in claimed:
         na.append({"property_id": p, "reason": base["not_applicable_reasons"].get(p, "check not built yet: the Lean model and correspondence for this property are under construction (see DESIGN.md §7); nothing is claimed for it")})
+# hook commits in /repo: subjects starting "verif hook" / "hook:" (everything else since the pinned
+# snapshot is a "fix:" commit)
+import subprocess
+try:
+    log = subprocess.run(["git", "-C", "/repo", "log", "--format=%h %s"], stdout=subprocess.PIPE, text=True).stdout.splitlines()
+    base["hooks"]["source_commits"] = [l.split()[0] for l in log if l.split(" ", 1)[1].startswith(("verif hook", "hook:"))][::-1]
+except Exception:
+    pass
 m = {
     "version": 1,
     "setup_cmd": base["setup_cmd"],
